@@ -399,6 +399,18 @@ Definition outside_internal (ipaths : list bytes) (f : bytes) : bool :=
 Definition same_set (a b : list bytes) : bool :=
   forallb (fun x => memb x b) a && forallb (fun x => memb x a) b.
 
+(* ---- histories of browse requests on one running site ----
+   Between requests the files below the root change in any way (a directory replaced by another
+   one — a new inode — is simply another tree): a request carries the directory asked for and what
+   is below it on disk WHEN IT ARRIVES.  browse keeps nothing between requests and
+   FileServer.IsHidden opens the hide-list entries anew on every call, so the answers of a
+   history are the answers to its requests one by one. *)
+Record breq := { bq_arc : bool; bq_dir : bytes; bq_kids : list node }.
+Definition browse_answer (hide : list bytes) (q : breq) : list bytes :=
+  if bq_arc q then map fst (archive hide (bq_dir q) (bq_kids q)) else listing hide (bq_dir q) (bq_kids q).
+Definition browse_history (hide : list bytes) (qs : list breq) : list (breq * list bytes) :=
+  map (fun q => (q, browse_answer hide q)) qs.
+
 (* a tree used by the non-vacuity examples: /int/h.txt, /pub/a.txt, /top.txt *)
 Definition example_tree : list node :=
   [ Node (bs "int"%string) true [Node (bs "h.txt"%string) false []];
